@@ -1,6 +1,7 @@
 import EinoV.Oracle.GraphCase
 import EinoV.Model.C04Flat
 import EinoV.Model.C04Lazy
+import EinoV.Model.C04Key
 import EinoV.Expected.C04
 
 namespace EinoV.Oracle.C04
@@ -133,11 +134,32 @@ end
 
 def resJ (r : Except Err FlatMap) : Json := GraphCase.resultJson r
 
+/-- case {"kind":"keyval","chunks":["absent"|"nil"|"wrong"|"good:<text>", …]} (the values found under
+    the input key in the producer's chunks) → what a node with `WithInputKey` receives:
+    value mode on the one-chunk producer output, stream mode on all chunks; `panics` under the
+    expected (nil-safe) conversion function -/
+def handleKeyVal (c : Json) : JE Json := do
+  let items ← J.strList c "chunks"
+  let kv : String → KVal String := fun s =>
+    if s == "absent" then .absent else if s == "nil" then .nilVal else if s == "wrong" then .wrong
+    else .good (s.drop 5).toString
+  let kvs := items.map kv
+  let strCo : ChunkOps String := { concatItems := fun l => .ok (String.join l), emptyErr := { cls := .user 9999 } }
+  let resS : Except Err String → Json := fun r => match r with
+    | .ok v => Json.mkObj [("ok", Json.str v)]
+    | .error e => Json.mkObj [("err", Json.str (toString (repr e.cls)))]
+  let value := match kvs with
+    | [one] => resS (keyValue one)
+    | _ => Json.null
+  pure (Json.mkObj [("value", value), ("stream", resS (lazyConcat strCo (keyStream kvs))),
+    ("panics", Json.bool (panicsAt true kvs))])
+
 /-- case: {"g": graph, "input": "text", "inChunks": [sizes]} →
     {"invoke": Invoke(x), "stream": concat Stream(x), "collect": Collect(xs), "transform": concat Transform(xs),
      "orderDep": some fan-in of the stream-mode run merges streams that share a key (the
      concatenation then depends on the arrival order of their chunks)} -/
 def handle (c : Json) : JE Json := do
+  if J.strD c "kind" "" == "keyval" then return (← handleKeyVal c)
   let (gv, gs) ← parseBoth (lazyOps flatZero) (← J.field c "g")
   let (_, gd) ← parseBoth disjointOps (← J.field c "g")
   let x ← J.str c "input"
